@@ -45,6 +45,20 @@ Proof.
   destruct t; intros [= <- <- <-]; reflexivity.
 Qed.
 
+(* the variadic repair is in, or the function is not variadic *)
+Definition variadic_ok (R : repairs) (f : ty) : Prop :=
+  rep_reject_variadic R = true \/ fn_variadic f = false.
+Definition shard_ok (R : repairs) (f : ty) : Prop :=
+  rep_shard_exact R = true \/ fn_shard_named f = false.
+Definition numout_ok (R : repairs) (f : ty) : Prop :=
+  rep_numout R = true \/ fn_numout f = 2%nat.
+
+Lemma variadic_ok_some R f ins e outs :
+  variadic_ok R f -> user_func_b f = Some (ins, Some e, outs) -> rep_reject_variadic R = true.
+Proof.
+  intros [H|H] Hf; [exact H|]. rewrite (user_func_b_variadic _ _ _ _ Hf) in H. discriminate.
+Qed.
+
 Lemma kind_is_int_unnamed t :
   match t with TNamed _ _ => true | _ => false end = false -> kind_is_int t = ty_eqb t tint.
 Proof.
@@ -111,17 +125,19 @@ Proof.
 Qed.
 
 (* ---------------------------------------------------------------- Fold *)
-Lemma fold_decided U s f :
-  fn_variadic f = false -> decided (fold_check U s f) (fold_schema_b U s f).
+Lemma fold_decided R U s f :
+  variadic_ok R f -> decided (fold_check_gen R U s f) (fold_schema_b U s f).
 Proof.
-  intro Hv. unfold fold_check, fold_schema_b.
+  intro Hv. unfold fold_check_gen, fold_schema_b.
   destruct (cols s) as [|k [|v2 rest]] eqn:Hc; simpl; try reflexivity.
   unfold out_at; simpl.
   destruct (can_hash U k); simpl; [|reflexivity].
   destruct (kind_accumulable k); simpl; [|reflexivity].
   rewrite slicefunc_of_user.
   destruct (user_func_b f) as [[[ins var] outs]|] eqn:Hf; [|reflexivity].
-  rewrite (user_func_b_variadic _ _ _ _ Hf) in Hv. destruct var; [discriminate|].
+  unfold is_variadic. cbn [sf_var]. destruct var as [e|].
+  { rewrite (variadic_ok_some _ _ _ _ _ Hv Hf). simpl. crunch_none. }
+  rewrite andb_false_r.
   rewrite reflect_ins_none. simpl.
   destruct outs as [|acc' [|o2 outs]]; simpl; try (crunch_none; fail).
   unfold type_equal. simpl.
@@ -133,10 +149,10 @@ Proof.
 Qed.
 
 (* ---------------------------------------------------------------- Reduce *)
-Lemma reduce_decided U s f :
-  fn_variadic f = false -> decided (reduce_check U s f) (reduce_schema_b U s f).
+Lemma reduce_decided R U s f :
+  variadic_ok R f -> decided (reduce_check_gen R U s f) (reduce_schema_b U s f).
 Proof.
-  intro Hv. unfold reduce_check, reduce_schema_b.
+  intro Hv. unfold reduce_check_gen, reduce_schema_b.
   destruct (Z.of_nat (length (cols s)) - Z.of_nat (prefix s) =? 1)%Z eqn:E1.
   - apply Z.eqb_eq in E1. assert (El : length (cols s) = (prefix s + 1)%nat) by lia.
     rewrite El, Nat.eqb_refl. simpl.
@@ -149,7 +165,9 @@ Proof.
     destruct (out_at_some (cols s) (prefix s)) as (v & Hn & Ho); [lia|].
     rewrite Hn.
     destruct (user_func_b f) as [[[ins var] outs]|] eqn:Hf; [|reflexivity].
-    rewrite (user_func_b_variadic _ _ _ _ Hf) in Hv. destruct var; [discriminate|].
+    unfold is_variadic. cbn [sf_var]. destruct var as [e|].
+    { rewrite (variadic_ok_some _ _ _ _ _ Hv Hf). simpl. crunch_none. }
+    rewrite andb_false_r.
     rewrite reflect_ins_none. simpl. rewrite Ho.
     destruct ins as [|a [|b [|c ins]]]; simpl; try (crunch_none; fail).
     + destruct (ty_eqb a v); reflexivity.
@@ -164,12 +182,14 @@ Proof.
 Qed.
 
 (* ---------------------------------------------------------------- Repartition *)
-Lemma repartition_decided s f :
-  fn_variadic f = false -> decided (repartition_check s f) (repartition_schema_b s f).
+Lemma repartition_decided R s f :
+  variadic_ok R f -> decided (repartition_check_gen R s f) (repartition_schema_b s f).
 Proof.
-  intro Hv. unfold repartition_check, repartition_schema_b. rewrite slicefunc_of_user.
+  intro Hv. unfold repartition_check_gen, repartition_schema_b. rewrite slicefunc_of_user.
   destruct (user_func_b f) as [[[ins var] outs]|] eqn:Hf; [|reflexivity].
-  rewrite (user_func_b_variadic _ _ _ _ Hf) in Hv. destruct var; [discriminate|].
+  unfold is_variadic. cbn [sf_var]. destruct var as [e|].
+  { rewrite (variadic_ok_some _ _ _ _ _ Hv Hf). simpl. crunch_none. }
+  rewrite andb_false_r. cbn [orb].
   rewrite reflect_ins_none. unfold type_equal. cbn [sf_in sf_out].
   rewrite (tys_eqb_sym (tint :: cols s) ins), (tys_eqb_sym [tint] outs).
   destruct outs as [|o [|o2 outs]]; cbn [leqb].
